@@ -8,12 +8,14 @@
 (* exp/nbf/iat as NumericDate) and carried by the JWS or JWE transport.    *)
 (* Decode: the transport's integrity check comes first (its verdict is the *)
 (* subject of C01/C02 and abstract here), then the payload must be a JSON  *)
-(* object: anything else is an invalid-payload error.                      *)
+(* object: anything else is an invalid-payload error.  The header handed   *)
+(* back is the one on the wire: the key argument of decode (a key, or a    *)
+(* key set holding it) adds nothing to it.                                  *)
 (***************************************************************************)
 EXTENDS Naturals, Sequences, FiniteSets, TLC, Json
 
 CONSTANTS Dev
-DevNames == {"NonObjectClaims", "TypAlwaysJWT", "HeaderMutated", "PayloadBeforeIntegrity", "NotJsonEscapes"}
+DevNames == {"NonObjectClaims", "TypAlwaysJWT", "HeaderMutated", "PayloadBeforeIntegrity", "NotJsonEscapes", "DecodeWritesKid"}
 ASSUME Dev \subseteq DevNames
 
 Transports == {"jws", "jwe"}
@@ -23,16 +25,18 @@ KeyArgs == {"key", "keyset"}
 PayloadClasses == {"object", "empty_object", "array", "string", "number", "true", "false", "null", "notjson", "empty", "notutf8"}
 IsObject(p) == p \in {"object", "empty_object"}
 
-VARIABLES sc, phase, token, callerHdr, outcome
-vars == <<sc, phase, token, callerHdr, outcome>>
+VARIABLES sc, phase, token, callerHdr, outcome, retKid
+vars == <<sc, phase, token, callerHdr, outcome, retKid>>
 
-Scn(tr, typ, ka, pc, tampered, made) == [tr |-> tr, typ |-> typ, keyarg |-> ka, payload |-> pc, tampered |-> tampered, madeby |-> made]
+\* keyarg: what encode is given (a key set writes its key's kid into the header); deckey: what decode is given
+Scn(tr, typ, ka, dk, pc, tampered, made) == [tr |-> tr, typ |-> typ, keyarg |-> ka, deckey |-> dk, payload |-> pc, tampered |-> tampered, madeby |-> made]
 
 Init ==
   /\ phase = "encode" /\ token = [typ |-> "none", kid |-> FALSE, payload |-> "none", intact |-> TRUE] /\ outcome = "none"
-  /\ \E tr \in Transports, typ \in Typs, ka \in KeyArgs, pc \in PayloadClasses, t \in BOOLEAN, mb \in {"library", "forge"} :
+  /\ retKid = "none"
+  /\ \E tr \in Transports, typ \in Typs, ka \in KeyArgs, dk \in KeyArgs, pc \in PayloadClasses, t \in BOOLEAN, mb \in {"library", "forge"} :
        /\ (mb = "library" => IsObject(pc))          \* jwt.encode only takes a claims object; other payloads are forged by an independent signer
-       /\ sc = Scn(tr, typ, ka, pc, t, mb)
+       /\ sc = Scn(tr, typ, ka, dk, pc, t, mb)
   /\ callerHdr = sc.typ
 
 Encode ==
@@ -40,12 +44,12 @@ Encode ==
   /\ token' = [typ |-> IF sc.typ = "absent" \/ "TypAlwaysJWT" \in Dev THEN "JWT" ELSE sc.typ,
                kid |-> sc.keyarg = "keyset", payload |-> sc.payload, intact |-> TRUE]
   /\ callerHdr' = IF "HeaderMutated" \in Dev /\ sc.madeby = "library" /\ sc.typ = "absent" THEN "JWT" ELSE callerHdr
-  /\ phase' = "wire" /\ UNCHANGED <<sc, outcome>>
+  /\ phase' = "wire" /\ UNCHANGED <<sc, outcome, retKid>>
 
 Tamper ==
   /\ phase = "wire"
   /\ token' = [token EXCEPT !.intact = ~sc.tampered]
-  /\ phase' = "decode" /\ UNCHANGED <<sc, callerHdr, outcome>>
+  /\ phase' = "decode" /\ UNCHANGED <<sc, callerHdr, outcome, retKid>>
 
 Decode ==
   /\ phase = "decode"
@@ -54,6 +58,7 @@ Decode ==
                            ELSE IF IsObject(token.payload) \/ "NonObjectClaims" \in Dev THEN "claims" ELSE "invalid_payload"
      IN outcome' = IF "PayloadBeforeIntegrity" \in Dev /\ payloadVerdict = "invalid_payload" THEN "invalid_payload"
                    ELSE IF ~token.intact THEN "integrity_error" ELSE payloadVerdict
+  /\ retKid' = IF "DecodeWritesKid" \in Dev /\ sc.deckey = "keyset" THEN "yes" ELSE (IF token.kid THEN "yes" ELSE "no")
   /\ phase' = "done" /\ UNCHANGED <<sc, token, callerHdr>>
 
 Next == Encode \/ Tamper \/ Decode
@@ -65,5 +70,6 @@ IntegrityFirst == phase = "done" /\ ~token.intact => outcome = "integrity_error"
 Faithful == phase = "done" /\ token.intact /\ IsObject(token.payload) => outcome = "claims"
 TypDefault == phase \in {"wire", "decode", "done"} => token.typ = (IF sc.typ = "absent" THEN "JWT" ELSE sc.typ)
 HeaderUntouched == callerHdr = sc.typ
+HeaderAsOnWire == phase = "done" /\ outcome = "claims" => retKid = (IF token.kid THEN "yes" ELSE "no")
 Export == phase = "encode" => PrintT("CASE " \o ToJson(sc))
 =============================================================================
